@@ -7,9 +7,11 @@ Open Scope Z_scope.
 (* the labelled-output description reaching the Dataset / DataFrame builder through a crop
    (reap_runner -> reap_combos_to_ds -> combo_runner_to_ds) is the runner's own: names, internal
    dimensions, their coordinates, constants AS CONSTANTS (coordinate if they name a dimension,
-   attribute otherwise) and attributes -- the same fields a direct run passes *)
+   attribute otherwise) and attributes -- the same fields a direct run passes; the constants are the
+   runner's overridden by those given for this run (at sow time for a crop: recorded with it), on both
+   routes *)
 Theorem C06_same_description :
-  description gen_reap_runner_call gen_reap_to_ds_call = [FVarNames; FVarDims; FVarCoords; FConstants; FAttrs]
+  description gen_reap_runner_call gen_reap_to_ds_call = [FVarNames; FVarDims; FVarCoords; FConstantsPlusCall; FAttrs]
   /\ description gen_run_combos_call identity_call = [FVarNames; FVarDims; FVarCoords; FConstantsPlusCall; FAttrs]
   /\ description gen_run_cases_call identity_call = [FVarNames; FVarDims; FVarCoords; FConstantsPlusCall; FAttrs].
 Proof.
@@ -53,7 +55,17 @@ Definition old_reap_to_ds_call : call_args :=
   {| ca_var_names := AVarNames; ca_var_dims := AVarDims; ca_var_coords := AVarCoords;
      ca_constants := AEmpty; ca_resources := AEmpty; ca_attrs := AAttrs; ca_parse := AParse |}.
 Lemma C06_same_description_refuted_old :
-  description model_reap_runner_call old_reap_to_ds_call <> [FVarNames; FVarDims; FVarCoords; FConstants; FAttrs].
+  description model_reap_runner_call old_reap_to_ds_call <> [FVarNames; FVarDims; FVarCoords; FConstantsPlusCall; FAttrs].
+Proof. cbn. discriminate. Qed.
+
+(* ... and before the sow-time constants were recorded with the crop, a crop described its data with the
+   runner's stored constants only, although the sown settings carried the overriding ones: the two routes
+   disagreed (the record of defect D29) *)
+Definition old_reap_runner_call : call_args :=
+  {| ca_var_names := RVarNames; ca_var_dims := RVarDims; ca_var_coords := RVarCoords;
+     ca_constants := RConstants; ca_resources := AEmpty; ca_attrs := RAttrs; ca_parse := Farmer.AFalse |}.
+Lemma C06_sown_constants_refuted_old :
+  description old_reap_runner_call model_reap_to_ds_call <> description model_run_combos_call identity_call.
 Proof. cbn. discriminate. Qed.
 
 (* a crop reaped with default arguments merges into the harvester's dataset under the same policy as a direct
